@@ -86,6 +86,13 @@ def main():
                 "checks_that_report_it": caught,
                 "detected_by_own_property_check": own,
             }
+            # what the checks reported the first time they ever saw this seed (held-out measurement) is kept
+            try:
+                prev = json.load(open(out_dir + "/meta.json"))
+                first = prev.get("first_run", {"checks_that_reported_it": prev.get("checks_that_report_it", {})})
+            except Exception:
+                first = {"checks_that_reported_it": caught, "checker_commit": sh("git -C /verif rev-parse --short HEAD")[1].strip()}
+            meta["first_run"] = first
             json.dump(meta, open(out_dir + "/meta.json", "w"), indent=1)
     sh(f"git -C /repo worktree remove --force {SCRATCH}")
     for p in CLAIMED:
